@@ -171,7 +171,7 @@ func (c *Ctx) truncate(s *eff.Site) {
 		if init != nil && post != nil && len(init.Lhs) == 1 && post.Tok == token.INC {
 			iv := init.Lhs[0]
 			zero := fn.Term(init.Rhs[0]).Key() == gf.ConstInt(0).Key()
-			cond := fn.Formula(loop.Cond).String() == c.Want(fn, loop.Body.Pos(), "$1 < len($2)", iv, hID).String()
+			cond := fn.Formula(loop.Cond).Key() == c.Want(fn, loop.Body.Pos(), "$1 < len($2)", iv, hID).Key()
 			same := fn.Term(post.X).Key() == fn.Term(iv).Key() && fn.Term(cell.Index).Key() == fn.Term(iv).Key()
 			okLoop = zero && cond && same
 		}
